@@ -25,7 +25,9 @@ EXPLANATION = (
     "overwritten before the reduction; (8) main-path well-formedness: definite assignment and no undefined global name in "
     "every function (triaged suppressions listed in the evidence).")
 NOT_DECIDED = "finiteness in general, positivity of C_V, positive definiteness of the stiffness, c(T) -> c(0)."
-ASSUMPTIONS = ["Q = hbar*omega/kT > 0 on entries that survive the Gamma mask and the T = 0 row mask (R01.6, R01.7, R01.9)",
+ASSUMPTIONS = ["block loops over a grid axis are folded once; coverage of the axis is refuted by an exact integer witness or accepted when the trip count is ceil(L/b) structurally / on the box [1,240] x ([1,48] + {64,100,1000}) (cijsa/blocks.py)",
+               "T-LIB: the temperature grid T_MIN + DT * arange(NT) (qha.tools.arange) is integer-typed when T_MIN and DT are whole numbers: operations that keep an integer element type (numpy.reciprocal without dtype, negative integer powers) are findings",
+               "Q = hbar*omega/kT > 0 on entries that survive the Gamma mask and the T = 0 row mask (R01.6, R01.7, R01.9)",
                "T-LIB: numpy.linalg.eig/eigvals/roots, numpy.emath.*, cmath.* return complex dtype; eigh/eigvalsh return real",
                "T-LIB: installed qha polynomial_least_square_fitting returns one array"]
 
